@@ -31,5 +31,5 @@ for k in (1, 2):
         if len(p) >= 6:
             filt = p
     title = open(os.path.join(dst, "README.md")).readline().strip().lstrip("# ")
-    json.dump({"id": sid, "breaks": [prop], "origin": "independent sub-agent (round %s) given only the text of the property, the titles of earlier changes to avoid, and its own scratch worktree" % {3: "three", 5: "four", 7: "five", 9: "six", 11: "seven"}.get(start, str(start)), "needs": "see README.md", "demo": "demo.diff adds #[cfg(test)] unit tests (filter: %s; tests: %s) that pass on the unchanged tree and fail with patch.diff" % (filt, ", ".join(tests)), "demo_filter": filt, "confirmed": None, "checks_run": {}}, open(os.path.join(dst, "meta.json"), "w"), indent=1)
+    json.dump({"id": sid, "breaks": [prop], "origin": "independent sub-agent (round %s) given only the text of the property, the titles of earlier changes to avoid, and its own scratch worktree" % {3: "three", 5: "four", 7: "five", 9: "six", 11: "seven", 13: "eight"}.get(start, str(start)), "needs": "see README.md", "demo": "demo.diff adds #[cfg(test)] unit tests (filter: %s; tests: %s) that pass on the unchanged tree and fail with patch.diff" % (filt, ", ".join(tests)), "demo_filter": filt, "confirmed": None, "checks_run": {}}, open(os.path.join(dst, "meta.json"), "w"), indent=1)
     print("imported", sid, "|", title[:100], "| filter", filt)
